@@ -46,7 +46,13 @@ def run(rep, work, tier, seed, only=None):
             key = {'site': 'BatchSimulation', 'event': ev['kind'], 'gzip': sc['gz']}
             ctx = {'chain': desc, 'step': si}
             exp_rc = 9 if ev['kind'].startswith('kill') else 0
-            if st['rc'] != exp_rc:
+            # a kill point that is never reached (fewer trials/saves were needed than its position) lets the run finish normally:
+            # os._exit(9) cannot return 0, so exit status 0 means the run completed and it is judged as a complete run
+            unreached = ev['kind'].startswith('kill') and st['rc'] == 0
+            if unreached:
+                ev = {'kind': 'none'}
+                rep.count('kill-point-not-reached')
+            elif st['rc'] != exp_rc:
                 rep.violation(key, 'step %d of chain %s: the run exited %s (%s)' % (si, desc, st['rc'], st['stderr'].strip().split('\n')[-1] if st['stderr'] else ''),
                               dict(ctx, stderr=st['stderr']))
                 break
